@@ -173,6 +173,16 @@ func checkLoad(src []byte) {
 	vf.Reach("loaded")
 }
 
+func unknownVars(diags hcl.Diagnostics) int {
+	n := 0
+	for _, d := range diags {
+		if d.Summary == "Unknown variable" {
+			n++
+		}
+	}
+	return n
+}
+
 func compareBodies(sb *hclsyntax.Body, wb *hclwrite.Body) {
 	wattrs := wb.Attributes()
 	vf.Assert(len(wattrs) == len(sb.Attributes), "writer-exposes-every-attribute")
@@ -185,6 +195,23 @@ func compareBodies(sb *hclsyntax.Body, wb *hclwrite.Body) {
 		svars := sa.Expr.Variables()
 		wvars := wa.Expr().Variables()
 		vf.Assert(len(svars) == len(wvars), "writer-exposes-every-variable-reference")
+		// ... and what it exposes is what evaluation needs: in the scope restricted to the
+		// root names the writer reports, no further variable is found to be missing
+		full := scope()
+		keep := map[string]cty.Value{}
+		for _, tr := range wvars {
+			toks := tr.BuildTokens(nil)
+			if len(toks) == 0 {
+				continue
+			}
+			root := string(toks[0].Bytes)
+			if v, ok := full.Variables[root]; ok {
+				keep[root] = v
+			}
+		}
+		_, d1 := sa.Expr.Value(full)
+		_, d2 := sa.Expr.Value(&hcl.EvalContext{Variables: keep})
+		vf.Assert(unknownVars(d1) == unknownVars(d2), "writer-variables-suffice-to-evaluate")
 	}
 	wblocks := wb.Blocks()
 	vf.Assert(len(wblocks) == len(sb.Blocks), "writer-exposes-every-block")
